@@ -130,6 +130,19 @@ RULE = ("PROOF PART: cases = corpus + every string of length <= 3 over {e-acute,
         "{KELVIN, I-dot, A-stroke, sharp s, (, ), ?, x, blank}; then-part statements (12 forms) with the characters around / inside the "
         "function name; every string of length <= 4 over {1 e E + - . x blank ( ) *} and of length 5 over {1 e + - x} on "
         "evaluate_expression (every look-behind / look-ahead around a sign, dot, exponent letter or parenthesis at the very start / end) "
+        "+ the CUT family (truncation / preview / padding of a component at a fixed BYTE offset): for 35 entries and EVERY COMPONENT of each of "
+        "their valid inputs - every identifier / keyword / function / variable / module name, every string-literal body (rule name, attribute "
+        "strings, stream names, values), every number, the inside of every bracket pair and each of its comma-separated pieces (each argument "
+        "of function calls / accumulate / stream windows / import specs / arrays / query goals / aggregate queries), every line, every directive "
+        "value behind a `:`, the whole input - the component is replaced by, preceded by and followed by (the error paths: a call without its "
+        "parentheses, text behind the closing parenthesis) a long component in which a 2-, 3- or 4-byte character lies across every byte offset: "
+        "k = 0..3 ASCII bytes + a run of 4-byte characters, k = 0..2 + 3-byte, k = 0..1 + 2-byte, and the run followed by ASCII bytes (offsets "
+        "counted from the end); lengths 262 bytes (every offset up to 256 + 3 at once) and N+1..N+4 for each N of 8 10 16 20 24 32 40 48 50 60 "
+        "64 80 100 120 128 200 255 256; kernel entries get every shape, entries that parse a rule per case the two shapes (4,k),(4,k+1) that "
+        "leave no offset on a char boundary in both (all three modes) plus rotating others, whole rules / query blocks a rotating selection "
+        "(parse_rules and GRLQueryParser::parse every component, parse_with_modules / parse_rule / parse_queries every fourth); text in front "
+        "of the leaf regexes stays <= 48 bytes and a when leaf <= 150 bytes (F-C05h; accumulate(...) leaves, literal bodies and everything "
+        "outside the when clause are not limited) "
         "+ N generated "
         "strings, each for one of 27 modelled entries or 4 oracle-only entries R / M / W / FN (one in five: a valid input with random (i)/(ii)/(iii) "
         "/(iv) mutations, sometimes spliced; every token alphabet yields a Unicode white space / look-alike one time in ten and a "
@@ -187,6 +200,9 @@ ASSUMPTIONS = [
     "ActionType::Custom{action_type: set}); its model methodArgs has a theorem but no driven entry - MA observes what the code does and would show `ok method` if the regex started to match",
     "depth fuel = chars + 1 per recursive kernel: Rust stack use is (frames per level) x (bytes per frame), measured by the 4 KiB chains on an 8 MiB stack",
     "the search stream caps `when` leaves at 40 bytes so that it does not only re-find F-C05h (condition_regex ~quartic); F-C05h is probed separately",
+    "CUT family inside a `when` leaf that is not accumulate(...): the field / function-name positions are covered for cut offsets N <= 40 only and "
+    "values / call arguments for N <= 128 (longer text in front of the superlinear leaf regexes costs 0.05 .. 0.3 s per case: F-C05h); every other "
+    "component position is covered for every N <= 256",
 ]
 LEVEL_TEXT = ("Lean 4 theorems (kernel-checked, for every string and every Unicode classification) that the slicing/indexing/recursion "
               "kernels of the parsers never panic and terminate with recursion depth <= chars + 1: complete model of ExpressionParser "
